@@ -1,4 +1,7 @@
 import MjProof.Lemmas.Spatial
+set_option linter.unusedSimpArgs false
+set_option linter.unusedTactic false
+set_option linter.unreachableTactic false
 /-
 C24  Rotation and pose utilities implement the group operations (DESIGN.md §5.C24).
 
@@ -550,8 +553,12 @@ theorem subQuat_quatIntegrate (q : Quat) (v : Vec3) (h : ℝ) (hq : normSq4 q = 
     (the axis is reset to (1,0,0) but the angle `2·atan2(0, 1)` is 0) -/
 theorem subQuat_self (q : Quat) (hq : normSq4 q = 1) : subQuat q q = (0, 0, 0) := by
   rw [subQuat_eq_quat2Vel, (negQuat_inverse q hq).2]
-  have h0 : ¬ (piLit < 0) := not_lt.mpr piLit_pos.le
-  simp [quat2Vel, quatOne, mju_quat2Vel, mju_normalize3_eq, minval_pos, realAtan2, ofSci_pi, real_lt_iff, h0]
+  have hm : (0 : ℝ) < minval := minval_pos
+  simp only [quat2Vel, quatOne, mju_quat2Vel, mju_normalize3_eq, real_ofInt, real_atan2, ofSci_pi,
+    decide_eq_true_eq, real_lt_iff]
+  push_cast
+  have ha : realAtan2 0 1 = 0 := by simp [realAtan2]
+  simp [ha, hm, not_lt.mpr piLit_pos.le]
 
 theorem subQuat_quatIntegrate_zero (q : Quat) (v : Vec3) (hq : normSq4 q = 1) :
     subQuat (quatIntegrate q v 0) q = (0, 0, 0) := by
@@ -565,7 +572,7 @@ example : normSq4 quatOne = 1 ∧ minval ≤ Real.sqrt (normSq3 ((1 : ℝ), (0 :
   rw [e]
   refine ⟨by simp [normSq4, quatOne], minval_lt_one.le, ?_, ?_⟩
   · unfold piLit; norm_num
-  · have hs := Real.sin_gt_sub_cube (x := (1 : ℝ) * 1 * (1/2)) (by norm_num) (by norm_num)
+  · have hs := Real.sin_gt_sub_cube (x := (1 : ℝ) * 1 * (1/2)) (by norm_num)
     have hm : minval < 1/4 := by unfold minval; norm_num
     rw [abs_of_pos (by nlinarith)]
     nlinarith
